@@ -128,3 +128,41 @@ End FlatSpec.
 Definition spec_cli_fields (l : list (string * fdecl)) : list (string * cty) :=
   map (fun kv => (fst kv, f_ty (snd kv)))
       (filter (fun kv => negb (fkind_eqb (f_kind (snd kv)) KClassVar) && f_init (snd kv) && f_cmd (snd kv)) l).
+
+(* ---------- what the type predicates must answer, and which members are nested groups (by meaning) ---------- *)
+Definition is_clist (c : cty) : bool := match c with CList _ => true | _ => false end.
+Definition is_ctuple (c : cty) : bool := match c with CTuple _ | CTupleVar _ => true | _ => false end.
+Definition is_cdict (c : cty) : bool := match c with CDict _ _ => true | _ => false end.
+Definition is_coptional (c : cty) : bool := match c with CUnion l => existsb is_cnone l | _ => false end.
+
+Section WrapSpec.
+  Variable dcs : list string.        (* the dataclass classes in scope *)
+
+  Definition is_dc_c (c : cty) : bool := match c with CAtom n => str_in n dcs | _ => false end.
+
+  (* a list / tuple whose (first) item is a dataclass: not supported as a command-line member *)
+  Definition seq_of_dc_c (c : cty) : bool :=
+    match c with
+    | CList a | CTupleVar a => is_dc_c a
+    | CTuple (a :: _) => is_dc_c a
+    | _ => false
+    end.
+
+  Fixpoint contains_dc_c (c : cty) : bool :=
+    is_dc_c c || seq_of_dc_c c
+    || match c with
+       | CUnion l => (fix go (l : list cty) : bool := match l with [] => false | x :: t => contains_dc_c x || go t end) l
+       | _ => false
+       end.
+
+  Definition is_subparser_c (c : cty) : bool := match c with CUnion l => forallb is_dc_c l | _ => false end.
+
+  (* None = unsupported; a choice between dataclasses is one (subparser) option; a dataclass member is a nested group
+     unless its default is None; a union with a dataclass alternative is an optional nested group *)
+  Definition spec_wkind (c : cty) (default_none : bool) : option wkind :=
+    if seq_of_dc_c c then None
+    else if is_subparser_c c then Some WField
+    else if is_dc_c c && negb default_none then Some WChild
+    else if contains_dc_c c then Some WOptChild
+    else Some WField.
+End WrapSpec.
